@@ -726,6 +726,11 @@ func genFrozen(r *rand.Rand, id string, tier string) string {
 	}
 	names := methodNames(kind)
 	var calls []string
+	if kind == "stack" && r.Intn(5) == 0 {
+		// a push policy that refuses everything (5) / strings (2) is installed: no call on the frozen instance gets as far as asking it
+		v.Cfg.Ppf = []int{5, 2, 1}[r.Intn(3)]
+		calls = append(calls, genCall(r, kind, []string{"Insert", "Push", "Replace"}[r.Intn(3)]))
+	}
 	for i, n := 0, 1+r.Intn(4); i < n; i++ {
 		name := names[r.Intn(len(names))]
 		if name == "SetReadOnly" || name == "ReadOnly" || name == "SetErr" || name == "Init" || name == "SetID" {
@@ -789,6 +794,25 @@ func genInitOnly(r *rand.Rand, id string, tier string) string {
 }
 
 func genQueries(r *rand.Rand, id string, tier string) string {
+	if r.Intn(20) == 0 {
+		// a long list of Conditions compared with an equal copy and with a copy that differs at two positions (in two
+		// different ways): every caller gets the answer about the first difference, every time
+		st := V{T: 'K', Form: "n", Cfg: Cfg{Kind: 4}}
+		for i, n := 0, 48+r.Intn(40); i < n; i++ {
+			st.Xs = append(st.Xs, V{T: 'C', Form: "n", Kw: fmt.Sprintf("k%d", i), Op: "c1", Xs: []V{{T: 'i', I: int64(i)}}})
+		}
+		if r.Intn(3) == 0 {
+			st.Cfg.Opt |= fRO
+		}
+		cp := cloneV(st)
+		cp.Cfg.Opt &^= fRO
+		p, q := r.Intn(len(cp.Xs)), r.Intn(len(cp.Xs))
+		cp.Xs[p].Kw += "x"
+		cp.Xs[q].Op = "c2"
+		eq := cloneV(st)
+		eq.Cfg.Opt &^= fRO
+		return "queries | " + st.String() + " | IsEqual " + cp.String() + " ; IsEqual " + eq.String() + " ; IsEqual " + cp.String() + " ; Len"
+	}
 	recv, kind := genSweepRecv(r)
 	if r.Intn(4) == 0 {
 		v, _ := parseV(strings.Fields(recv))
